@@ -17,9 +17,9 @@ SPEC = {
              'and priority at dispatch) or an insertion from inside an action or an unpause that shifted an '
              'event; distinct = by hash of the case'),
     'floors': {'quick': {'dispatches_checked': 1000, 'tie_groups': 50, 'run_windows_checked': 500,
-                         'past_rejected': 50, 'resumes_rounding_below_now': 5, 'second_execute_checked': 1000},
+                         'past_rejected': 50, 'resumes_rounding_below_now': 5, 'second_execute_checked': 1000, 'line_dispatches_checked': 10000, 'line_tie_groups': 1000},
                'thorough': {'dispatches_checked': 100000, 'tie_groups': 5000, 'run_windows_checked': 10000,
-                            'past_rejected': 500, 'resumes_rounding_below_now': 100, 'second_execute_checked': 100000}},
+                            'past_rejected': 500, 'resumes_rounding_below_now': 100, 'second_execute_checked': 100000, 'line_dispatches_checked': 200000, 'line_tie_groups': 20000}},
     'exhaustive_key': 'exhaustive_sequences',
     'exhaustive_text': 'all sequences up to the length bound over the 9-op alphabet (after the fixed prefix)',
     'assumptions': ['priorities are above TERMINATE', 'step()/run() are not re-entered from inside an action',
